@@ -232,6 +232,8 @@ VARIANTS = [
     V( 'reopen-compared-by-getattr', DEVICE, "assert all( ufo.get( a ) == fo.get( a )", "assert all( ufo.getattr( a ) == fo.getattr( a )", fires=[ 'K-REOPEN' ], why='defect DG' ),
     V( 'reopen-compares-one-direction-only', DEVICE, "for a in ( 'O_T.NCP', 'O_T.RPI', 'T_O.NCP', 'T_O.RPI', 'transport_class_triggers', 'connection_path' )), \\", "for a in ( 'O_T.NCP', 'O_T.RPI' )), \\", fires=[ 'K-REOPEN' ] ),
     V( 'reopen-compared-by-subscript', DEVICE, "assert all( ufo.get( a ) == fo.get( a )", "assert all( ufo[a] == fo[a]", silent=[ 'K-REOPEN' ] ),
+    V( 'single-attribute-unknown-answers-08', DEVICE, "data.status	= 0x05		# Request Path destination unknown\n assert str(a_id) in self.attribute, \\", "assert str(a_id) in self.attribute, \\", fires=[ 'S-STATUS' ], why='defect DH' ),
+    V( 'single-attribute-unknown-status-decimal', DEVICE, "data.status	= 0x05		# Request Path destination unknown\n assert str(a_id) in self.attribute, \\", "data.status	= 5\n                assert str(a_id) in self.attribute, \\", silent=[ 'S-STATUS' ] ),
     V( 'forward-close-over-tuple-snapshot', DEVICE, "for k in list( self.forwards.keys() ): # we'll be mutating the dict...", "for k in tuple( self.forwards ):", silent=[ 'W-ITERDEL' ] ),
     V( 'struct-read-complete-by-short-window', LOGIX, "completed = end == endactual and offremains+max_size >= len( input )", "completed		= end == endactual and len( trimmed ) < max_size", fires=[ 'F-STATUS' ] ),
     V( 'struct-read-complete-by-window-end', LOGIX, "completed = end == endactual and offremains+max_size >= len( input )", "completed		= end == endactual and not input[offremains+max_size:]", silent=[ 'F-STATUS' ] ),
